@@ -272,7 +272,10 @@ type cliEnv struct {
 	bin       string
 	one       string
 	two       [2]string
+	oneText   string
+	twoText   [2]string
 	inlineMem map[string]cliRun
+	feeders   []*feeder // writers of the named pipes of the case being run
 }
 
 func (e *env) cliSetup() *cliEnv {
@@ -284,7 +287,7 @@ func (e *env) cliSetup() *cliEnv {
 		panic("expropt: the rare binary is gone: " + err.Error())
 	}
 	one, two := cliFiles()
-	c := &cliEnv{bin: bin, one: scratchDir + "/cli-all.funcs", two: [2]string{scratchDir + "/cli-first.funcs", scratchDir + "/cli-second.funcs"}, inlineMem: map[string]cliRun{}}
+	c := &cliEnv{bin: bin, one: scratchDir + "/cli-all.funcs", two: [2]string{scratchDir + "/cli-first.funcs", scratchDir + "/cli-second.funcs"}, oneText: one, twoText: two, inlineMem: map[string]cliRun{}}
 	for name, text := range map[string]string{c.one: one, c.two[0]: two[0], c.two[1]: two[1]} {
 		if err := os.WriteFile(name, []byte(text), 0o644); err != nil {
 			panic(err)
@@ -390,8 +393,13 @@ func (e *env) cliOne(c *cliEnv, cc cliCase) {
 	case "two-env":
 		extraEnv = []string{"RARE_FUNC_FILES=" + c.two[0] + "," + c.two[1]}
 	default:
-		panic("cli: delivery " + cc.Delivery)
+		if !strings.HasPrefix(cc.Delivery, "pipe-") {
+			panic("cli: delivery " + cc.Delivery)
+		}
+		global, extraEnv = c.pipeDelivery(cc, fn.name, global)
 	}
+	feeders := c.feeders
+	c.feeders = nil
 	// the inline run does not depend on how the funcs file is delivered
 	key := strings.Join(cc.Flags, " ") + "\x00" + fmt.Sprint(cc.NoOpt) + "\x00" + inlineT
 	inl, have := c.inlineMem[key]
@@ -401,6 +409,15 @@ func (e *env) cliOne(c *cliEnv, cc cliCase) {
 	}
 	got := c.run(w, global, extraEnv, append(append([]string{}, sub...), callT))
 	sigTail := fn.helper + "/" + fn.form
+	pipeNote := ""
+	for i, f := range feeders {
+		f.finish() // the process has exited (or was killed): release a writer nobody read from
+		pipeNote += fmt.Sprintf("pipe %d, written in %d piece(s), each after the reader consumed the one before: a reader opened it: %v; %d bytes accepted; error of the writer: %v\n", i+1, len(f.pieces), f.opened, f.written, f.werr)
+	}
+	if len(feeders) > 0 {
+		sigTail = "pipe-delivery/" + fn.form
+		w.Add("cli_pipe_delivery_cases", 1)
+	}
 	if got.hung || inl.hung {
 		w.Eval(true)
 		w.Violation("C10/cli-funcs/hang/"+sigTail, fmt.Sprintf("the process did not exit within 60 s\nfunction run: %s %q (hung=%v)\ninline run:   %q (hung=%v)", strings.Join(got.env, " "), got.argv, got.hung, inl.argv, inl.hung), cf())
@@ -428,12 +445,105 @@ func (e *env) cliOne(c *cliEnv, cc cliCase) {
 			fmt.Sprintf("a function from a funcs file and its body written inline print different results under the same global flags %q\n"+
 				"function: %s %q\n  -> stdout %q, exit ok=%v, stderr %q\n"+
 				"inline:   %q\n  -> stdout %q, exit ok=%v, stderr %q\n"+
-				"definition: %s %s\n%s",
-				cc.Flags, strings.Join(got.env, " "), got.argv, got.stdout, got.ok, tailOf(got.stderr), inl.argv, inl.stdout, inl.ok, tailOf(inl.stderr), fn.name, fn.body.Print(0), file),
+				"definition: %s %s\n%s%s",
+				cc.Flags, strings.Join(got.env, " "), got.argv, got.stdout, got.ok, tailOf(got.stderr), inl.argv, inl.stdout, inl.ok, tailOf(inl.stderr), fn.name, fn.body.Print(0), file, pipeNote),
 			cf())
 	}
 	if w.WantSample() && got.ok && inl.ok && len(cc.Flags) > 1 && fn.form == "mixed" {
 		w.Sample(cf())
+	}
+}
+
+// ---- the funcs file delivered through a named pipe ---------------------------------
+//
+// `rare --funcs <(gen) ..`: the funcs file is not a complete regular file but a
+// pipe (stat size 0; the bytes arrive in the writer's pieces). The same files,
+// flags, functions and oracle as above; the file's text is fed into a named pipe
+// by the harness (pipefeed.go) in
+//
+//	pipe-1      one write
+//	pipe-2      two pieces, the boundary inside the name of the called function's definition
+//	pipe-3      three pieces: inside the first comment line, right after the newline before that definition
+//	pipe-env-2  RARE_FUNC_FILES=<pipe>, two pieces, the boundary right before the newline ending that definition
+//	pipe-bytes  byte by byte (thorough)
+//	pipe-two    the two files, each through a pipe of its own in two pieces (thorough)
+
+func cliPipeDeliveries(thorough bool) []string {
+	out := []string{"pipe-1", "pipe-2", "pipe-3", "pipe-env-2"}
+	if thorough {
+		out = append(out, "pipe-bytes", "pipe-two")
+	}
+	return out
+}
+
+func cliPipeFlagSets() [][]string { return [][]string{{}, {"--noformat", "--nocolor"}} }
+
+func cliPipeFns() []string {
+	return []string{"fhiconst", "fhidynamic", "fhimixed", "fhisecond", "floadconst"}
+}
+
+func cliPipeRule(tier string) string {
+	return fmt.Sprintf("funcs file through a named pipe instead of a regular file (what `--funcs <(gen)` is): the same file(s) fed by the harness as %v (one write / two pieces cut inside the name of the called function's definition / three pieces cut inside the first comment line and right after the newline before that definition / RARE_FUNC_FILES=<pipe> in two pieces cut right before the newline ending that definition%s; every later piece is written only after the process consumed the one before) x global flags %q x functions %v x with and without --no-optimize; same oracle (signature C10/cli-funcs/differs-from-inline/pipe-delivery/<form>)",
+		cliPipeDeliveries(tier == "thorough"), map[bool]string{true: " / byte by byte / the two files through a pipe each"}[tier == "thorough"], cliPipeFlagSets(), cliPipeFns())
+}
+
+func (c *cliEnv) pipe(text string, cuts []int) string {
+	path := newFifo(scratchDir)
+	c.feeders = append(c.feeders, startFeeder(path, cutPieces([]byte(text), cuts)))
+	return path
+}
+
+// pipeDelivery starts the feeder(s) and returns the arguments/environment naming the pipe(s).
+func (c *cliEnv) pipeDelivery(cc cliCase, fn string, global []string) ([]string, []string) {
+	text := c.oneText
+	def := strings.Index(text, "\n"+fn+" ") + 1 // the definition line of fn
+	if def <= 0 {
+		panic("cli: no definition line of " + fn)
+	}
+	eol := def + strings.IndexByte(text[def:], '\n')
+	switch cc.Delivery {
+	case "pipe-1":
+		return append(global, "--funcs", c.pipe(text, nil)), nil
+	case "pipe-2":
+		return append(global, "--funcs", c.pipe(text, []int{def + 3})), nil
+	case "pipe-3":
+		return append(global, "--funcs", c.pipe(text, []int{5, def})), nil
+	case "pipe-env-2":
+		return global, []string{"RARE_FUNC_FILES=" + c.pipe(text, []int{eol})}
+	case "pipe-bytes":
+		cuts := make([]int, 0, len(text))
+		for i := 1; i < len(text); i++ {
+			cuts = append(cuts, i)
+		}
+		return append(global, "--funcs", c.pipe(text, cuts)), nil
+	case "pipe-two":
+		a, b := c.twoText[0], c.twoText[1]
+		return append(global, "--funcs", c.pipe(a, []int{len(a) / 2}), "--funcs", c.pipe(b, []int{len(b) / 3})), nil
+	}
+	panic("cli: delivery " + cc.Delivery)
+}
+
+func (e *env) cliPipePhase(unit *int64) {
+	w := e.w
+	var c *cliEnv
+	for _, flags := range cliPipeFlagSets() {
+		for _, fn := range cliPipeFns() {
+			for _, del := range cliPipeDeliveries(!w.Quick()) {
+				*unit++
+				if !w.Owns(*unit) {
+					continue
+				}
+				if w.Expired() {
+					return
+				}
+				if c == nil {
+					c = e.cliSetup()
+				}
+				for _, noOpt := range []bool{false, true} {
+					e.cliOne(c, cliCase{Flags: flags, Delivery: del, NoOpt: noOpt, Fn: fn, CallForm: "pass-through"})
+				}
+			}
+		}
 	}
 }
 
